@@ -126,6 +126,15 @@ def run(tier, seed):
             cov[k] = max(cov.get(k, 0), v[1])
         cases.extend(r.cases)
     vc.log("[tlc] %d states, %d cases" % (states, len(cases)))
+    # designed component tuples beyond the model's length bound: a dot inside one component whose neighbourhood makes the JOINED
+    # string a valid rid with other components (componentwise validity is what from_components must decide)
+    comp_re = [re.compile(r"\A[a-z][a-z0-9\-]*\Z"), re.compile(r"\A([a-z0-9][a-z0-9\-]*)?\Z"), re.compile(r"\A[a-z][a-z0-9\-]*\Z"),
+               re.compile(r"\A[a-zA-Z0-9_\-\.]+\Z")]
+    for parts in (("svc", "inst.type", "type", "loc"), ("a", ".d", "d", "e"), ("a", "b.c", "c", "d"), ("a.b", "", "b", "c"), ("a", "b", "c.d", "e"),
+                  ("a", "b", "c", "d.e"), ("a.a", "a", "a", "a"), ("a", "", "b.b", "b"), ("svc", "i", "t", "l"), ("a", "b.", "c", "d"), ("a", "", "", "d"),
+                  ("a", "b", "c", ""), ("", "b", "c", "d"), ("a", "b.c.c", "c", "d"), ("a", "c", "c", "c.c")):
+        ok = all(r.match(x) for r, x in zip(comp_re, parts))
+        cases.append({"mode": "components", "s": [], "parts": [list(x.encode()) for x in parts], "prop": ok, "mech": ok})
     docs, meta = [], {}
     for ci, c in enumerate(cases):
         docs.append(json.dumps({"id": "c%d" % ci, "mode": c["mode"], "s": c["s"], "parts": c["parts"]}))
